@@ -230,9 +230,9 @@ def check_C09(tier):
 # ---------------------------------------------------------------------------
 # C10: fault enumeration over the position of the failing target call
 # ---------------------------------------------------------------------------
-VAL_FAULTS = ["exception", "exception2", "exception3", "exception4", "nan", "nan0d", "inf", "-inf", "complex", "vector", "none",
+VAL_FAULTS = ["exception", "exception2", "exception3", "exception4", "exception5", "nan", "nan0d", "inf", "-inf", "complex", "vector", "none",
               "complex_arr", "complex0d", "complex_np", "inf_arr"]
-SPEC_FAULTS = ["exception", "exception2", "exception3", "exception4", "pair_nan", "pair_inf", "not_pair", "triple", "sd_zero", "sd_neg",
+SPEC_FAULTS = ["exception", "exception2", "exception3", "exception4", "exception5", "pair_nan", "pair_inf", "not_pair", "triple", "sd_zero", "sd_neg",
                "sd_nan", "sd_inf", "sd_zero_arr", "none", "pair_complex_arr", "sd_complex_arr", "sd_neg_arr"]
 
 
@@ -423,8 +423,8 @@ def check_C16(tier):
     for p in patterns_used:
         if p and (consecutive(p) or len(p) == 1) and (tier == "thorough" or len(p) >= 3 or p[0] <= 2):
             scs.append({"id": "g_rosen_" + "_".join(map(str, p)), "D": 2, "geom": box_r, "target": {"family": "rosen"},
-                        "noise": {"mode": "det"}, "cons": None, "options": {"max_fun_evals": 45}, "seed": 11,
-                        "faults": {"fit": list(p)}, "tags": ["fitfault", "det", "rosen", f"n{len(p)}",
+                        "noise": {"mode": "det"}, "cons": None, "options": {"max_fun_evals": 45, "gp_warnings": True}, "seed": 11,
+                        "faults": {"fit": list(p)}, "tags": ["fitfault", "det", "rosen", "gp_warnings", f"n{len(p)}",
                                                             "consecutive" if consecutive(p) else "single"]})
     # third base problem (deterministic): a coarsely quantised bowl -- the local training sets hold exactly equal
     # values, so "closest pair" and "above the 95th percentile" are decided on ties
